@@ -107,8 +107,13 @@ def build_harness(run):
     if getattr(run, "c07_exe", None):
         return run.c07_exe
     rfch = os.path.join(vf.REPO, "src/target/firmware/layer1/rfch.c")
+    try:
+        nm = hopping.names(run)
+    except vf.HarnessError:
+        nm = {"seq_gen": True, "pnm": True}
+    run.c07_direct = nm
     h = cbuild.obj(run, os.path.join(vf.ROOT, "harness/c/c07_harness.c"), "c07_harness",
-                   flags=["-DHOST_BUILD", '-DRFCH_C="%s"' % rfch],
+                   flags=["-DHOST_BUILD", '-DRFCH_C="%s"' % rfch, "-DC07_HAVE_SEQ_GEN=%d" % int(nm["seq_gen"]), "-DC07_HAVE_PNM=%d" % int(nm["pnm"])],
                    includes=[cbuild.SHIM, cbuild.LIBOSMO_INC, cbuild.TOP_INC], idirafter=[cbuild.FW_INC])
     gu = cbuild.libosmocore_obj(run, "gsm/gsm_utils.c", "gsm_utils_c07")
     run.c07_exe = cbuild.link(run, [h, gu], "c07_harness.bin", ignore_unresolved=True)
@@ -431,6 +436,13 @@ def correspond_fw(run, corr, rng, n_fw):
     defined = [(r, m) for r, m in zip(freqs, fmodel) if not (m.startswith("oob-") or m == "divzero")]
     undefined = len(freqs) - len(defined)
     fimpl = vf.run_lines([exe], [r for r, _ in defined])
+    # "skip": a static helper the request addresses directly does not exist in this tree and the question cannot be put
+    # through rfch_get_params() either (counted; the model's answer stands alone there)
+    nskip = sum(1 for a in fimpl if a == "skip")
+    if nskip:
+        kept = [(d, a) for d, a in zip(defined, fimpl) if a != "skip"]
+        defined, fimpl = [d for d, _ in kept], [a for _, a in kept]
+        corr.distribution["fw requests addressed to static helpers that this tree does not define (not comparable)"] = nskip
     corr.compare([r for r, _ in defined], fimpl, [m for _, m in defined], in_domain=in_domain)
     for (r, m) in defined:
         corr.count(r, r.split()[0])
